@@ -426,7 +426,10 @@ class Runner(object):
         self._scan_execs(i, sim.generation[i])      # (a node killed inside a step is not seen by _after any more)
         log = sim.log_of(i)
         hi = max(self.ack_hi[i], o.raftCommitIndex)
-        self.before[i] = {"log": log, "need": [x for x in log if x[0] <= hi], "term": o.raftCurrentTerm,
+        # what the node's dump covers: its applied position — a node killed before its first tick has not loaded
+        # its dump yet (applied = 1) and still has what it had when it was killed the time before
+        covered = max(o.raftLastApplied, self.before[i].get("covered", 0) if (i in self.fresh and i in self.before) else 0)
+        self.before[i] = {"covered": covered, "log": log, "need": [x for x in log if x[0] <= hi], "term": o.raftCurrentTerm,
                           "commit": o.raftCommitIndex, "applied": o.raftLastApplied,
                           "voted": getattr(o, "_SyncObj__votedForNodeId", None), "leader": o._isLeader()}
         self.restarted_in_term[o.raftCurrentTerm].add(i)
@@ -663,7 +666,7 @@ class Runner(object):
                 views[v] = (set((x[0], x[1]) for x in lg), lg[0][0], sim.objs[v].raftLastApplied)
             elif v in self.before:
                 b = self.before[v]
-                views[v] = (set((x[0], x[1]) for x in b["log"]), b["log"][0][0] if b["log"] else 1, b["applied"])
+                views[v] = (set((x[0], x[1]) for x in b["log"]), b["log"][0][0] if b["log"] else 1, b["covered"])
             elif v in sim.objs:
                 lg = sim.log_of(v)
                 views[v] = (set((x[0], x[1]) for x in lg), lg[0][0], 1)
